@@ -1,5 +1,6 @@
 import PercevalModel.SimProto
 import PercevalModel.Model.C20
+import PercevalModel.Model.C20Conv
 
 /-!
   Driver of C20.  Requests (one JSON object per line):
@@ -16,6 +17,12 @@ import PercevalModel.Model.C20
     {"op":"psswap","fixed":bool,"a":a,"b":b,"conds":[[mode,…],…]} -> {"conds":[[mode,…],…]}  (qubits a, b swapped)
     {"op":"cqdecl","decls":[[name,size|-1],…],"refs":[[name,idx|-1],…]}
         -> {"names":[…],"n":qubits,"idx":[k|null,…]}   (cQASM declarations: size -1 = single qubit)
+    {"op":"cutcheck","fixed":bool,"ups":bool,"gates":[…],"labels":[…]|null}
+        -> {"shape":[[[first modes],leaky],…],"ok":bool}   (labels null: the model's own labelling)
+    {"op":"cutenum","fixed":bool,"nq":n,"k":k,"first":[a,b]} -> {"ok":"110…"} (cutCheck of the model's labelling, all
+        CNOT sequences as in "labelenum")
+    {"op":"modes","n":n,"fixed":bool,"ups":bool,"gates":[…]}
+        -> {"kinds":[…],"modes":[[…],…],"m":m,"qubits":[…],"heralds":[[mode,val],…],"layoutOk":bool}
 -/
 
 open Lean PM PM.Proto PM.Fock PM.SimSpec PM.SimProto PM.C20
@@ -135,6 +142,41 @@ def handle (j : Json) : Json :=
         | none => Json.null
       return Json.mkObj [("names", toJson (qubitNames ds)), ("n", toJson (qubitList ds).length),
         ("idx", Json.arr idx.toArray)]
+    | "cutcheck" =>
+      let fixed ← boolOf j "fixed"
+      let ups ← boolOf j "ups"
+      let gs ← (← arrOf j "gates").toList.mapM gateOfJson
+      if gs.any (fun g => isCnot g && g.qubits.length ≠ 2) then throw "ValueError"
+      let labels ← match j.getObjVal? "labels" with
+        | .ok (.arr a) => a.toList.mapM fun (x : Json) => x.getStr?
+        | _ => pure (labelCnots fixed gs)
+      if labels.length ≠ gs.length then throw "labels/gates length"
+      let shape := convShape ups gs labels
+      return Json.mkObj [("shape", Json.arr (shape.map fun (s : List ℕ × Bool) => Json.arr #[toJson s.1, Json.bool s.2]).toArray),
+        ("ok", Json.bool (cutCheck shape))]
+    | "cutenum" =>
+      let fixed ← boolOf j "fixed"
+      let nq ← natOf j "nq"
+      let k ← natOf j "k"
+      let first ← edgeOfJson (← j.getObjVal? "first")
+      if k = 0 then throw "k = 0"
+      let seqs := (allSeqs (orderedPairs nq) (k - 1)).map (first :: ·)
+      let oks := seqs.map fun (sq : List Edge) =>
+        let gs : List Gate := sq.map fun (e : Edge) => ⟨"cx", [e.1, e.2]⟩
+        if cutCheck (convShape true gs (labelCnots fixed gs)) then '1' else '0'
+      return Json.mkObj [("ok", Json.str (String.ofList oks))]
+    | "modes" =>
+      let fixed ← boolOf j "fixed"
+      let ups ← boolOf j "ups"
+      let n ← natOf j "n"
+      let gs ← (← arrOf j "gates").toList.mapM gateOfJson
+      if gs.any (fun g => isCnot g && g.qubits.length ≠ 2) then throw "ValueError"
+      if gs.any (fun g => g.qubits.any (· ≥ n)) then throw "qubit out of range"
+      let kinds := planKinds ups gs (labelCnots fixed gs)
+      if kinds.any (·.startsWith "rejected") then throw "rejected gate"
+      let L := convLayout n (planHeralds kinds)
+      return Json.mkObj [("kinds", toJson kinds), ("modes", toJson (planModes n gs kinds 0)), ("m", toJson L.m),
+        ("qubits", toJson L.qubits), ("heralds", edgesToJson L.heralds), ("layoutOk", Json.bool L.ok)]
     | _ => throw "unknown op") with
   | .ok r => r
   | .error e => errJson e
